@@ -21,6 +21,11 @@ CORPUS = [
     # a constant offset is pending when the inner reference field is reached
     ("struct", "Outer", [("a", ("scalar", 2)), ("b", ("struct", "Inner", [("n", ("scalar", 2)), ("x", ("array", ("scalar", 2), [None], [0])),
                                                                           ("y", ("array", ("scalar", 2), [None], [0]))]))]),
+    # leading dynamic dimension with the static axes in a non-C order, F order with a dynamic dimension, and the same nested in a
+    # struct: the strides must come from the header / the declared order, not from the C-order default
+    ("array", ("scalar", 2), [None, 3, 4], [0, 2, 1]),
+    ("array", ("scalar", 0), [None, 3], [1, 0]),
+    ("struct", "SP", [("k", ("scalar", 6)), ("m", ("array", ("scalar", 6), [None, 3, 2], [2, 0, 1]))]),
 ]
 
 
